@@ -114,7 +114,7 @@ def run(ctx):
     swap = pr.swap_handler
     body = swap.body
     opts = [i - 1 for i in range(1, g.body.arg_count + 1) if re.match(r"^std::option::Option<cosmwasm_std::\S*Decimal>$", g.body.locals[i]["ty"])]
-    assets = [i - 1 for i in range(1, g.body.arg_count + 1) if g.body.locals[i]["ty"] == "haloswap::asset::Asset"]
+    assets = [i - 1 for i in range(1, g.body.arg_count + 1) if g.body.locals[i]["ty"] == ctx.N.Asset]
     u8s = [i - 1 for i in range(1, g.body.arg_count + 1) if g.body.locals[i]["ty"] == "u8"]
     sp_i = common.param_index_of_type(g, r"^cosmwasm_std::\S*Uint128$")
     if len(opts) != 2 or len(assets) != 2 or len(u8s) != 2 or sp_i is None:
@@ -227,7 +227,7 @@ def run(ctx):
         # the branch with od > rd must be the one scaling return/spread: sub exponent p-q with p the larger => no underflow
     # ---- R1 wiring in the swap handler ---------------------------------------------------------------------------
     sv = P.val_call(swap, body, gb)
-    offer_i = common.param_index_of_type(swap, r"^haloswap::asset::Asset$")
+    offer_i = common.param_index_of_type(swap, "^%s$" % ctx.N.rx("Asset"))
     sopts = [i - 1 for i in range(1, swap.body.arg_count + 1) if re.match(r"^std::option::Option<cosmwasm_std::\S*Decimal>$", swap.body.locals[i]["ty"])]
     PR = "C:%s@%s:bb%d" % (pricing.path, swap.path, pbb)
     # belief / max_spread: by the message field they originate from (both entry paths)
@@ -258,8 +258,8 @@ def run(ctx):
     else:
         r1.site("offer ⊢ named offer asset; return ⊢ pricing.0; spread ⊢ pricing.1")
     # decimals per selection branch
-    qp = [(b, P.val_call(swap, body, b)) for b, p, fr, t in P.calls(swap) if p and generic_path(p).endswith("PairInfoRaw::query_pools")]
-    QP = "C:haloswap::asset::PairInfoRaw::query_pools@%s:bb%d" % (swap.path, qp[0][0]) if len(qp) == 1 else "?"
+    qp = [(b, P.val_call(swap, body, b)) for b, p, fr, t in P.calls(swap) if ctx.N.is_fn(p, "query_pools")]
+    QP = "C:%s@%s:bb%d" % (ctx.N.cpath("query_pools"), swap.path, qp[0][0]) if len(qp) == 1 else "?"
     sel = {}
     for gg in common.bool_guards(P, swap):
         c = gg.cond
@@ -279,7 +279,7 @@ def run(ctx):
             v = P.val_operand_in(swap, (gb, n), a, regions[k])
             want = k if which == "offer" else 1 - k
             rs = set(ctx.roots(v))
-            if rs != {"load(I:halo_pair::state::PAIR_INFO).asset_decimals[%d]" % want}:
+            if rs != {"load(%s).asset_decimals[%d]" % (ctx.N.PAIR_INFO, want)}:
                 r1.fail("C10.R1:decimals:%s:branch%d" % (which, k), swap.path, common.span_of_block_term(swap, gb),
                         "branch `offer is pools[%d]`: %s decimals ⊢ %s, expected asset_decimals[%d]" % (k, which, sorted(rs), want))
             else:
